@@ -130,3 +130,74 @@ def complement(sx, B):
         return
     sx.claim([r2.get(n + k) for k in range(1, n + 1)] == names, "complementing the added strand recovers the original",
              lambda: "%r -> %r -> %r" % (names, second, [r2.get(n + k) for k in range(1, n + 1)]))
+
+
+@condition("C19.gen_params",
+           anchors=["polyply.src.gen_itp:gen_params", "polyply.src.gen_dna:complement_dsDNA", "polyply.src.simple_seq_parsers:parse_ig"],
+           rejects=(), selector_only=True, must_cover=["linear", "circular"],
+           outside=["sequences other than the listed ones", "force fields other than the shipped martini2 DNA"],
+           cfg={"path_timeout_s": 300},
+           bounds={"quick": dict(seqs=["ACGT", "GGA", "TTTCA"]), "thorough": dict(seqs=["ACGT", "GGA", "TTTCA", "AT", "CCGGTA", "GATTACA"])},
+           budget={"quick": 280, "thorough": 900})
+def gen_params_dsdna(sx, B):
+    """Real gen_params -dsdna with the shipped martini2 DNA library on .ig sequence files (linear and circular): the written .itp
+    holds 2n residues, the second strand is the antiparallel Watson-Crick complement with the terminal roles exchanged, both
+    strands are bonded internally in order (a circular strand is closed) and no bond joins the two strands."""
+    import os, shutil, tempfile
+    from pathlib import Path
+    import polyply.src.gen_itp as gi
+    import polyply.src.apply_links as al
+    seq = sx.sel("sequence", B["seqs"])
+    circular = sx.sel("circular", [False, True]) if len(seq) >= 3 else False
+    sx.cover("circular" if circular else "linear")
+    n = len(seq)
+    d = tempfile.mkdtemp(prefix="pverif_", dir=os.environ.get("TMPDIR"))
+    try:
+        (Path(d) / "s.ig").write_text("; DNA sequence\n; c\ntitle\n%s%s\n" % (seq, "2" if circular else "1"))
+
+        class _T:
+            def __init__(self, it=None, *a, **k):
+                self.it = it
+
+            def __iter__(self):
+                return iter(self.it)
+
+            def update(self, n):
+                pass
+
+            def close(self):
+                pass
+        with patched(al, tqdm=_T), patched(gen_dna, tqdm=_T):
+            gi.gen_params(name="dna", outpath=Path(d) / "out.itp", lib=["martini2"], seq_file=Path(d) / "s.ig", dsdna=True)
+        text = (Path(d) / "out.itp").read_text()
+    finally:
+        shutil.rmtree(d, ignore_errors=True)
+    sec, res_of, names, bonds = None, {}, {}, set()
+    for line in text.split("\n"):
+        line = line.split(";")[0].strip()
+        if not line or line.startswith("#"):
+            continue
+        if line.startswith("["):
+            sec = line.strip("[] ")
+            continue
+        tok = line.split()
+        if sec == "atoms":
+            res_of[int(tok[0])] = int(tok[2])
+            names[int(tok[2])] = tok[3]
+        elif sec in ("bonds", "constraints"):
+            a, b = res_of[int(tok[0])], res_of[int(tok[1])]
+            if a != b:
+                bonds.add(frozenset((a, b)))
+    first = ["D" + c for c in seq]
+    if not circular:
+        first[0] += "5"
+        first[-1] += "3"
+    want = list(first) + [comp(first[n - k]) for k in range(1, n + 1)]
+    got = [names.get(r) for r in range(1, 2 * n + 1)]
+    sx.claim(sorted(names) == list(range(1, 2 * n + 1)), "the .itp holds 2n residues", lambda: repr(sorted(names)))
+    sx.claim(got == want, "the second strand is the antiparallel complement with terminal roles exchanged", lambda: "%s: %r expected %r" % (seq, got, want))
+    want_bonds = set(frozenset((r, r + 1)) for r in range(1, n)) | set(frozenset((r, r + 1)) for r in range(n + 1, 2 * n))
+    if circular:
+        want_bonds |= {frozenset((1, n)), frozenset((n + 1, 2 * n))}
+    sx.claim(bonds == want_bonds, "both strands are bonded in order, a circular strand is closed, and no bond joins the strands",
+             lambda: "%s circular=%r: %r expected %r" % (seq, circular, sorted(map(sorted, bonds)), sorted(map(sorted, want_bonds))))
